@@ -516,10 +516,11 @@ def rule_planarise_coverage(chk, prog):
                  "crossing nodes; one edge per consecutive pair of every node group, one edge per edge segment) runs over the whole source "
                  "collection and no iteration can end without Graph::addNode / addEdge -- nothing about a node (degree, kind) lets it be left "
                  "behind, an isolated original node included", floor=6)
-    want = {"dialect::OrthoPlanariser::removeEdgeOverlaps": [("dialect::Graph::addNode", "m_givenGraph.*.getNodeLookup()"), ("dialect::Graph::addNode", "bps"),
-                                                            ("dialect::Graph::addEdge", "gp")],
-            "dialect::OrthoPlanariser::removeEdgeCrossings": [("dialect::Graph::addNode", "m_overlapFreeGraph.*.getNodeLookup()"),
-                                                             ("dialect::Graph::addNode", "crossingNodes"), ("dialect::Graph::addEdge", "m_edgeSegments")]}
+    # (source collections are named only where the name is a member / accessor; locals may be renamed freely: they are counted)
+    want = {"dialect::OrthoPlanariser::removeEdgeOverlaps": [("dialect::Graph::addNode", "getNodeLookup()", 1), ("dialect::Graph::addNode", "", 2),
+                                                            ("dialect::Graph::addEdge", "", 1)],
+            "dialect::OrthoPlanariser::removeEdgeCrossings": [("dialect::Graph::addNode", "getNodeLookup()", 1), ("dialect::Graph::addNode", "", 2),
+                                                             ("dialect::Graph::addEdge", "", 1)]}
     for q, items in want.items():
         fn = prog.fn(q)
         g = CFG(fn)
@@ -541,11 +542,12 @@ def rule_planarise_coverage(chk, prog):
             rng = norm(loops[0].get("range")) if loops[0].get("k") == "CXXForRangeStmt" else norm(loops[0].get("cond"))
             found.append((c["cname"], rng))
             (r.bad if bad else r.ok)(inst, fn.loc(c), bad or "over `%s`" % rng)
-        for cname, src_ in items:
+        for cname, src_, need in items:
             r.count()
             hit = [f for f in found if f[0] == cname and src_ in f[1]]
-            (r.ok if hit else r.bad)("%s: %s for all of %s" % (q.split("::")[-1], cname.split("::")[-1], src_), fn.where(), "" if hit else
-                                     "no loop over `%s` adds to the new graph any more (found: %s)" % (src_, found))
+            what = "%s: at least %d loop(s) with %s%s" % (q.split("::")[-1], need, cname.split("::")[-1], (" over " + src_) if src_ else "")
+            (r.ok if len(hit) >= need else r.bad)(what, fn.where(), "" if len(hit) >= need else
+                                                  "only %d such loop(s) left (found: %s): part of the old graph is no longer carried over" % (len(hit), found))
 
 
 def rule_sibling_trees(chk, prog):
